@@ -467,6 +467,26 @@ func (p *Core) checkRecv(ci int, ps *PktState, r *sim.TxResult, pr PktState, ph 
 			w.Violate("C05", "receive-on-closed-channel", "", fmt.Sprintf("%s: received on a channel end that is CLOSED", ps.Pkt))
 		}
 	}
+	if w.Armed("C05") && !ps.V2 {
+		// the v1 channel end must be OPEN when the receive executes: judged on the state before the
+		// block, unless an earlier transaction of this very block confirmed the channel
+		bz := c.StateAt(ibcStore, host.ChannelKey(ps.P1.DestinationPort, ps.P1.DestinationChannel), r.Height-1)
+		var chn channeltypes.Channel
+		if len(bz) > 0 && c.App.AppCodec().Unmarshal(bz, &chn) == nil && chn.State != channeltypes.OPEN && chn.State != channeltypes.CLOSED {
+			opened := false
+			for _, q := range res {
+				if q == r {
+					break
+				}
+				if q.OK() && q.Spec.Label == "conf" {
+					opened = true
+				}
+			}
+			if !opened {
+				w.Violate("C05", "receive-on-channel-not-open", "", fmt.Sprintf("%s: received in block %d although the destination channel end %s/%s was %s", ps.Pkt, r.Height, ps.P1.DestinationPort, ps.P1.DestinationChannel, chn.State))
+			}
+		}
+	}
 	if !ps.V2 && pr.closedDst {
 		w.Violate("C14", "receive-on-closed-ordered-channel", "", fmt.Sprintf("%s: received on an ordered channel end closed by a timeout", ps.Pkt))
 	}
